@@ -23,7 +23,7 @@ static const char *kOpNames[OP_NKINDS] = {
     "O_DROP",
     "N_NEW", "N_BAD", "N_GEN", "N_COPY", "N_ASSIGN", "N_DROP",
     "I_INTERP", "Q_NUMINT",
-    "M_SEND", "M_RECV"};
+    "M_SEND", "M_RECV", "X_PIN"};
 
 const char *op_name(int kind) {
   return kind >= 0 && kind < OP_NKINDS ? kOpNames[kind] : "?";
@@ -44,7 +44,7 @@ static const char *kProbeNames[PR_NKINDS] = {
     "self_assign", "self_iadd", "xgrid_call", "xgrid_refused",
     "eqgrid_distinct", "idx_in", "idx_edge", "idx_huge", "idx_wrap",
     "last_owner_task", "msg_sent", "msg_recv", "c03_compared", "sweep_points",
-    "factor_inside", "twin_compared"};
+    "factor_inside", "twin_compared", "pin_taken", "pin_checked"};
 const char *probe_name(int p) {
   return p >= 0 && p < PR_NKINDS ? kProbeNames[p] : "?";
 }
